@@ -5,6 +5,10 @@
 use rvh::nd::{AssumeViolated, FileNd, FIRED};
 use std::panic;
 
+#[cfg(not(kani))]
+#[global_allocator]
+static GLOBAL: rvh::rt::native::Counting = rvh::rt::native::Counting;
+
 fn unhex(s: &str) -> Vec<u8> {
     (0..s.len() / 2)
         .map(|i| u8::from_str_radix(&s[2 * i..2 * i + 2], 16).unwrap())
